@@ -206,6 +206,30 @@ func (e *Engine) intrinsic(p *Path, name string, args []Value, depth int) ([]Res
 			out = append(out, Result{c.st, e.Const(64, uint64(c.kind))})
 		}
 		return e.mergeResults(out), true
+	case "vBlocks": // vBlocks(f func()) bool : would f block for ever if no other goroutine ran from now on?
+		// (f runs on a scratch copy of the state without pending tasks; its effects are discarded)
+		f, ok := args[0].(FuncV)
+		if !ok || f.fn == nil {
+			unsup("vBlocks of non-function")
+		}
+		scratch := e.fork(p.st)
+		scratch.tasks = nil
+		blocked := false
+		nA, nP, nF, nR, nU, nO := len(e.asserts), len(e.panics), len(e.fatals), len(e.reaches), len(e.unwinds), len(e.observes)
+		func() {
+			defer func() {
+				if r := recover(); r != nil {
+					if _, isB := r.(blockedErr); isB {
+						blocked = true
+						return
+					}
+					panic(r)
+				}
+			}()
+			e.callFn(&Path{st: scratch}, f.fn, nil, f.env, depth, nil)
+		}()
+		e.asserts, e.panics, e.fatals, e.reaches, e.unwinds, e.observes = e.asserts[:nA], e.panics[:nP], e.fatals[:nF], e.reaches[:nR], e.unwinds[:nU], e.observes[:nO]
+		return e.one(p, e.BoolC(blocked)), true
 	case "vUF": // vUF(name string, a ...uint64) uint64 : uninterpreted function (commutative argument order normalised)
 		nm := e.strOf(p, args[0])
 		ops := e.variadic(p, args[1])
